@@ -94,34 +94,22 @@ Theorem C20_stratum_in_interval : forall lo hi n i x,
   (1 <= n)%nat -> (i < n)%nat -> lo <= hi -> stratum lo hi n i x -> lo <= x <= hi.
 Proof. exact stratum_in_interval. Qed.
 
-(* Segment sampler.  FULL-STRENGTH STATEMENT (refuted on the unchanged tree, known finding
-   C20/generator_2dspatial_segment/random=True: `center = center + noise` rebinds the stratum
-   centres on every draw, so the points perform a random walk; see findings/F_C20_segment.v for
-   the machine-checked counterexample on the generated step function):
-
-   Theorem C20_segment_all_draws : forall rnd size x1 y1 x2 y2 (random : bool),
-     unit_draws rnd -> (1 <= size)%nat ->
-     forall k cur i, (i < size)%nat ->
-     let out := draw (generator_2dspatial_segment_step ROps rnd size (x1, y1) (x2, y2) random) k cur
-                     (generator_2dspatial_segment_init ROps size (x1, y1) (x2, y2) random) in
-     segment_stratum x1 y1 x2 y2 size i (fst out i) (snd out i).
-
-   What does hold: every draw with random = False, and the first draw with random = True. *)
-Theorem C20_segment_all_draws_partial : forall (rnd : nat -> nat -> R) (size : nat) (x1 y1 x2 y2 : R),
-  (1 <= size)%nat ->
-  forall k cur i, (i < size)%nat ->
-  let out := draw (generator_2dspatial_segment_step ROps rnd size (x1, y1) (x2, y2) false) k cur
-                  (generator_2dspatial_segment_init ROps size (x1, y1) (x2, y2) false) in
-  segment_stratum x1 y1 x2 y2 size i (fst out i) (snd out i).
-Proof. exact segment_all_draws_nonrandom. Qed.
-
-Theorem C20_segment_first_draw_partial : forall (rnd : nat -> nat -> R) (size : nat) (x1 y1 x2 y2 : R),
+(* Segment sampler, FULL strength since fix commit 1c60fb1 (the stratum centres are no longer
+   rebound; the old random walk is kept for the record in findings/F_C20_segment.v): for every draw
+   index, every oracle in [0,1), random on or off, point i has a segment parameter in
+   [i/size, (i+1)/size] -- in particular it lies on the segment *)
+Theorem C20_segment_all_draws : forall (rnd : nat -> nat -> R) (size : nat) (x1 y1 x2 y2 : R) (random : bool),
   unit_draws rnd -> (1 <= size)%nat ->
-  forall cur i, (i < size)%nat ->
-  let out := draw (generator_2dspatial_segment_step ROps rnd size (x1, y1) (x2, y2) true) 0 cur
-                  (generator_2dspatial_segment_init ROps size (x1, y1) (x2, y2) true) in
+  forall k cur i, (i < size)%nat ->
+  let out := draw (generator_2dspatial_segment_step ROps rnd size (x1, y1) (x2, y2) random) k cur
+                  (generator_2dspatial_segment_init ROps size (x1, y1) (x2, y2) random) in
   segment_stratum x1 y1 x2 y2 size i (fst out i) (snd out i).
-Proof. exact segment_first_draw_random. Qed.
+Proof. exact segment_all_draws. Qed.
+
+Theorem C20_segment_stratum_on_segment : forall x1 y1 x2 y2 n i x y,
+  (1 <= n)%nat -> (i < n)%nat -> segment_stratum x1 y1 x2 y2 n i x y ->
+  exists s, 0 <= s <= 1 /\ x = x1 + (x2 - x1) * s /\ y = y1 + (y2 - y1) * s.
+Proof. exact segment_stratum_on_segment. Qed.
 
 (* ================= training loops ============================================================ *)
 Local Open Scope nat_scope.
